@@ -185,6 +185,11 @@ class MergedTable:
         self.lo0, self.hi_last = z3.Int(f"mk{k}_lo0"), z3.Int(f"mk{k}_hi_last")
         self.sum_lo, self.sum_hi = z3.Int(f"mk{k}_sum_lo"), z3.Int(f"mk{k}_sum_hi")
         self.total = self.sum_hi - self.sum_lo
+        # the output rows themselves: row g = [lo(g), hi(g)), 0 <= g < n, sorted and separated (M1)
+        self.lo, self.hi = z3.Function(f"mk{k}_lo", z3.IntSort(), z3.IntSort()), z3.Function(f"mk{k}_hi", z3.IntSort(), z3.IntSort())
+        g = z3.Int(f"mk{k}_g")
+        ex.facts += [z3.ForAll([g], z3.Implies(z3.And(g >= 0, g < self.n), z3.And(self.lo(g) <= self.hi(g), z3.Implies(g + 1 < self.n, self.hi(g) <= self.lo(g + 1))))),
+                     z3.Implies(self.n >= 1, z3.And(self.lo0 == self.lo(0), self.hi_last == self.hi(self.n - 1)))]
         ts, dur, pres = src.cols["ts"].val, src.cols["dur"].val, src.present
         r = src.uni.skolem(f"mkr{k}")
         wlo, whi = src.uni.skolem(f"mkwlo{k}"), src.uni.skolem(f"mkwhi{k}")
@@ -214,6 +219,21 @@ class MergedTable:
         if idx in ("ts", "end"):
             return _MCol(self, idx)
         raise pyvc.Unsupported("merged table subscript")
+
+    def as_df(self):
+        from hv import framevc as fv
+
+        if not hasattr(self, "_df"):
+            uni = fv.Universe("mrows")
+            n, lo, hi = self.n, self.lo, self.hi
+            self._df = fv.SymDF(uni, {"ts": fv.Col(lambda r: lo(r[0]), None, "int"), "end": fv.Col(lambda r: hi(r[0]), None, "int")},
+                                lambda r: z3.And(r[0] >= 0, r[0] < n), None, "merged_rows")
+        return self._df
+
+    def hv_call_method(self, ex, attr, args, kwargs, pc, env):
+        if attr == "melt":
+            return self.as_df().hv_call_method(ex, attr, args, kwargs, pc, env)
+        return NotImplemented
 
 
 class _ILoc:
@@ -250,6 +270,25 @@ class _MCol:
     def hv_call_method(self, ex, attr, args, kwargs, pc, env):
         if attr == "sum":
             return self.m.sum_lo if self.col == "ts" else self.m.sum_hi
+        return NotImplemented
+
+    def hv_binop(self, ex, op, other, reflected, pc):
+        import ast as _ast
+
+        if isinstance(op, _ast.Sub) and isinstance(other, _MCol) and other.m is self.m and not reflected and self.col == "end" and other.col == "ts":
+            return _MLen(self.m)
+        raise pyvc.Unsupported("arithmetic on merged columns other than end - ts")
+
+
+class _MLen:
+    """(merged["end"] - merged["ts"]): its sum is sum_hi - sum_lo (linearity of finite sums, L5)."""
+
+    def __init__(self, m):
+        self.m = m
+
+    def hv_call_method(self, ex, attr, args, kwargs, pc, env):
+        if attr == "sum":
+            return self.m.total
         return NotImplemented
 
 
